@@ -84,6 +84,9 @@ pub fn classify(e: &tff::TffError, info: &NameInfo) -> String {
                 "reserved-word"
             } else if arities.len() > 1 {
                 "predicate-arity-overload"
+            } else if is_sym && arities == [0] {
+                // (clashes with 0-ary predicates are the ones anthem renames: never a recorded finding)
+                "symbol-vs-proposition"
             } else if is_sym && !arities.is_empty() {
                 "symbol-vs-predicate"
             } else if is_sym && is_ph {
@@ -148,7 +151,7 @@ pub fn task_strategy(known_shapes: bool) -> BoxedStrategy<TaskCase> {
     let c = strong_cfg(known_shapes);
     prop_oneof![
         1 => (ga::program(&c), ga::program(&c), any::<bool>(), gt::choices(8)).prop_map(|(left, right, mu, choices)| TaskCase::Strong { left, right, mu, choices }),
-        1 => gt::choices(181).prop_map(|choices| TaskCase::External { choices }),
+        1 => gt::choices(185).prop_map(|choices| TaskCase::External { choices }),
     ]
     .boxed()
 }
@@ -235,11 +238,28 @@ pub fn build_mode(case: &TaskCase, known_shapes: bool, symbol_like_predicate: bo
                     }
                 }
             }
-            match ops::external_problems(&task, &ops::empty_outline(), &flags, false) {
+            // one task in three comes with a generated proof outline (definitions, lemmas, inductive lemmas;
+            // the outline mentions placeholders but no symbolic constant of its own); cases recorded with
+            // up to 181 choices predate this
+            let mut outline = ops::empty_outline();
+            if !known_shapes && choices.len() > 181 && c.aux(73, 3) == 0 {
+                let mut oc = Chooser::new(choices.iter().rev().cloned().collect());
+                let entries = crate::checks::c13::outline(&mut oc, &task);
+                let candidate = fol::Specification { formulas: entries.iter().map(|e| e.formula.clone()).collect() };
+                if ops::external_problems(&task, &candidate, &flags, false).is_ok() {
+                    outline = candidate;
+                }
+            }
+            match ops::external_problems(&task, &outline, &flags, false) {
                 Ok((problems, _)) => Ok(Built {
                     source_symbols: gt::external_source_symbols(&task),
                     problems,
-                    description: format!("{}\n  flags: {}", describe_external(&task), flags.describe()),
+                    description: format!(
+                        "{}\n  flags: {}{}",
+                        describe_external(&task),
+                        flags.describe(),
+                        if outline.formulas.is_empty() { String::new() } else { format!("\n  outline: {}", safe_print::specification(&outline, &Style::plain())) }
+                    ),
                     strong: false,
                     tricky: true,
                 }),
@@ -318,7 +338,7 @@ impl Check for C09 {
         if self.known_shapes {
             "tasks over the identifier shapes of the recorded findings (leading underscores, one predicate name at two arities, a symbol named like a predicate of arity > 0 or like a mangled placeholder, reserved words); every problem goes through the strict TFF reader and type checker; failures are classified into narrow signatures and compared with known_findings.json; non-trivial = every accepted task; distinct by problem text".into()
         } else {
-            "accepted strong and external tasks (all flag combinations) over tricky but handled identifier shapes (names ending in _i/_g/_s/__s, h-/t-prefixed predicates, a symbol named like a 0-ary predicate, symbols with common prefixes); oracle: each problem text passes the strict TFF reader and type checker: valid words, unique formula names, one declaration and one type per identifier, declared before use, all uses typed, variables bound by typed quantifiers, exactly one conjecture; non-trivial = every problem of an accepted task; distinct by problem text".into()
+            "accepted strong and external tasks (all flag combinations; one external task in three with a generated proof outline) over tricky but handled identifier shapes (names ending in _i/_g/_s/__s, h-/t-prefixed predicates, a symbol named like a 0-ary predicate, symbols with common prefixes); oracle: each problem text passes the strict TFF reader and type checker: valid words, unique formula names, one declaration and one type per identifier, declared before use, all uses typed, variables bound by typed quantifiers, exactly one conjecture; non-trivial = every problem of an accepted task; distinct by problem text".into()
         }
     }
     fn run(&self, case: &TaskCase) -> Outcome {
@@ -476,7 +496,7 @@ impl Check for C12 {
             .boxed()
     }
     fn rule(&self) -> String {
-        "accepted strong and external tasks as in C09 (symbols with common prefixes, digits and upper-case letters after the prefix, symbols renamed because of a 0-ary predicate); for every problem: (a) the symbol_order_* axioms mention exactly the declared symbolic constants, form one connected chain, and every link is true in the standard order when each constant is read as the source symbol it stands for; (b) every transition_axiom_* is true in I_(H,T) for a random H subset-of T, and there is one per predicate; (c) every other axiom that does not stem from the input files is a preamble axiom; non-trivial = the problem has at least 2 symbolic constants or a transition axiom with H != T; distinct by the auto-generated part of the problem text".into()
+        "accepted strong and external tasks as in C09, one external task in three with a generated proof outline whose definitions may mention a placeholder (symbols with common prefixes, digits and upper-case letters after the prefix, symbols renamed because of a 0-ary predicate); for every problem: (a) the symbol_order_* axioms mention exactly the declared symbolic constants, form one connected chain, and every link is true in the standard order when each constant is read as the source symbol it stands for; (b) every transition_axiom_* is true in I_(H,T) for a random H subset-of T, and there is one per predicate; (c) every other axiom that does not stem from the input files is a preamble axiom; non-trivial = the problem has at least 2 symbolic constants or a transition axiom with H != T; distinct by the auto-generated part of the problem text".into()
     }
     fn run(&self, case: &OwnCase) -> Outcome {
         let built = match build_mode(&case.task, false, true) {
@@ -910,5 +930,128 @@ impl Check for WithOutline {
     fn from_replay(&self, j: &Value) -> Option<OutlineCase> {
         let v = |k: &str| -> Option<Vec<u16>> { Some(j[k].as_array()?.iter().map(|x| x.as_u64().unwrap() as u16).collect()) };
         Some(OutlineCase { task: v("task")?, outline: v("outline")? })
+    }
+}
+
+// ---------------------------------------------------------------------------------------
+// C09: whatever identifier the input grammars accept, the emitted problems are well-formed
+
+pub struct AcceptedNames;
+
+#[derive(Clone, Debug)]
+pub struct NameCase {
+    pub ident: String,
+    pub role: u8,
+    pub simplify: bool,
+}
+
+pub const NAME_ROLES: [&str; 5] = ["program-term", "program-predicate", "specification-term", "placeholder", "user-guide-predicate"];
+
+/// the input files of a small task that uses the identifier in the given role:
+/// (left program or specification, right program, user guide) - strong equivalence without a user guide
+pub fn name_task(ident: &str, role: u8) -> (String, String, Option<String>, bool) {
+    // predicates and placeholders start with a lower-case letter: adapt the first letter to the role
+    let adapted: String;
+    let ident = if matches!(role % 5, 1 | 3 | 4) {
+        let at = ident.find(|c: char| c != '_').unwrap_or(0);
+        adapted = format!("{}{}", &ident[..at], ident[at..].chars().enumerate().map(|(i, c)| if i == 0 { c.to_ascii_lowercase() } else { c }).collect::<String>());
+        adapted.as_str()
+    } else {
+        ident
+    };
+    let upper = ident.trim_start_matches('_').chars().next().is_some_and(|c| c.is_uppercase());
+    match role % 5 {
+        0 => (format!("p({ident}) :- q({ident}).\n"), format!("p({ident}) :- q({ident}), not r({ident}).\n"), None, false),
+        1 => (format!("{ident}(X) :- q(X).\n"), format!("{ident}(X) :- q(X), q(X).\n"), None, false),
+        2 => {
+            let spec = if upper {
+                format!("spec: forall {ident} (p({ident}) <-> q({ident})).\n")
+            } else {
+                format!("spec: forall X (p(X) <-> q(X) and X != {ident}).\n")
+            };
+            let program = if upper { format!("p({ident}) :- q({ident}).\n") } else { format!("p(X) :- q(X), X != {ident}.\n") };
+            (spec, program, Some("input: q/1.\noutput: p/1.\n".to_string()), true)
+        }
+        3 => (
+            format!("p(X) :- q(X), X < {ident}.\n"),
+            format!("p(X) :- q(X), {ident} > X.\n"),
+            Some(format!("input: {ident} -> integer.\ninput: q/1.\noutput: p/1.\n")),
+            false,
+        ),
+        _ => (
+            format!("p(X) :- {ident}(X).\n"),
+            format!("p(X) :- {ident}(X), {ident}(X).\n"),
+            Some(format!("input: {ident}/1.\noutput: p/1.\n")),
+            false,
+        ),
+    }
+}
+
+impl Check for AcceptedNames {
+    type Case = NameCase;
+    fn name(&self) -> &'static str {
+        "accepted-identifiers"
+    }
+    fn cases(&self, tier: Tier) -> usize {
+        tier.pick(15_000, 300_000)
+    }
+    fn strategy(&self, _tier: Tier) -> BoxedStrategy<NameCase> {
+        (crate::generators::text::candidate_identifier(), 0u8..5, any::<bool>()).prop_map(|(ident, role, simplify)| NameCase { ident, role, simplify }).boxed()
+    }
+    fn rule(&self) -> String {
+        "a candidate identifier (0-3 leading underscores, a letter or digit, a short body; in a third of the cases with a character outside the documented shapes - prime, dash, $, @, non-ASCII letter, double underscore - at the front, inside or at the end) used as program variable/symbol, program predicate, specification term, placeholder or user-guide predicate of a two-line task; the input grammars decide whether the files are accepted; oracle: every problem of an accepted task passes the strict TFF reader and type checker (same signatures as part well-formed); non-trivial = accepted identifier that is not just a letter followed by lower-case letters (digits, capitals or underscores inside, leading underscore, or anything else the grammars let through); distinct by identifier + role".into()
+    }
+    fn run(&self, case: &NameCase) -> Outcome {
+        let (left, right, ug, left_is_spec) = name_task(&case.ident, case.role);
+        let role = NAME_ROLES[case.role as usize % 5];
+        let Ok(right_p) = right.parse::<asp::Program>() else {
+            return Outcome::skip("identifier rejected by the grammar");
+        };
+        let problems: Vec<ProblemData> = match &ug {
+            None => {
+                let Ok(left_p) = left.parse::<asp::Program>() else {
+                    return Outcome::skip("identifier rejected by the grammar");
+                };
+                anthem::verif::strong(left_p, right_p, true, fol::Direction::Universal, false, case.simplify, true)
+            }
+            Some(ug) => {
+                let Ok(user_guide) = ug.parse::<fol::UserGuide>() else {
+                    return Outcome::skip("identifier rejected by the grammar");
+                };
+                let spec = if left_is_spec {
+                    match left.parse::<fol::Specification>() {
+                        Ok(s) => either::Either::Right(s),
+                        Err(_) => return Outcome::skip("identifier rejected by the grammar"),
+                    }
+                } else {
+                    match left.parse::<asp::Program>() {
+                        Ok(p) => either::Either::Left(p),
+                        Err(_) => return Outcome::skip("identifier rejected by the grammar"),
+                    }
+                };
+                match anthem::verif::external(spec, right_p, user_guide, crate::ops::empty_outline(), true, fol::Direction::Universal, false, false, case.simplify, true) {
+                    Ok((p, _)) => p,
+                    Err(_) => return Outcome::skip("task refused"),
+                }
+            }
+        };
+        let description = format!("identifier {:?} as {role}\n  left: {left}  right: {right}  user guide: {}", case.ident, ug.clone().unwrap_or_default());
+        for p in &problems {
+            if let Err((sig, msg)) = check_problem(p) {
+                return Outcome::fail(sig, format!("C09: {msg}\n  {description}\n--- problem text ---\n{}", tail(&p.text)));
+            }
+        }
+        // everyday identifiers: a letter followed by lower-case letters
+        let plain = case.ident.chars().next().is_some_and(|c| c.is_ascii_alphabetic()) && case.ident.chars().skip(1).all(|c| c.is_ascii_lowercase());
+        Outcome::pass(!plain, hash64(&format!("{}|{role}", case.ident)))
+            .readable(description)
+            .label(format!("role={role}"))
+            .label(if plain { "plain" } else { "unusual-but-accepted" })
+    }
+    fn describe(&self, case: &NameCase) -> Value {
+        json!({"ident": case.ident, "role": case.role, "simplify": case.simplify})
+    }
+    fn from_replay(&self, j: &Value) -> Option<NameCase> {
+        Some(NameCase { ident: j["ident"].as_str()?.to_string(), role: j["role"].as_u64()? as u8, simplify: j["simplify"].as_bool()? })
     }
 }
